@@ -213,7 +213,10 @@ FinalChecks ==
   /\ \A q \in DOMAIN acq :
        LET j == Log(acq[q][1])[acq[q][2]] IN
        IF q \in DOMAIN outc
-         THEN IF outc[q] = "granted" THEN j.rep.t = "ok" ELSE (j.rep.t = "err" /\ j.rep.code = E_CANCELLED) \/ j.rep.t = "none"
+         THEN IF outc[q] = "granted" THEN j.rep.t = "ok"
+              \* cancelled: the waiting request is refused; the refusal may be missing only if the session is gone
+              ELSE \/ (j.rep.t = "err" /\ j.rep.code = E_CANCELLED)
+                   \/ (j.rep.t = "none" /\ ~ss[ClientOf(acq[q][1])].open)
          ELSE j.rep.t = "none"
   \* no message that is neither a terminal message of a request nor an event of a subscription
   /\ Len(Sc.extra) = 0
